@@ -4,7 +4,8 @@
 //! to a length, split into every pair of chunks, the structure fed through `extend` must be
 //! observably identical to the one fed by the add/insert loop. Exhaustive over (alphabet^len x
 //! split points); the structures use their default hashers (DefaultHasher with fixed keys, i.e.
-//! deterministic), the sampler draws from the scripted chooser.
+//! deterministic), the sampler draws from the scripted chooser. Half of the cases start from a structure that
+//! saw other items and was cleared (a second delivery path x a non-initial start state).
 use crate::runner::Viol;
 use mccore::chooser::{self, ChoiceRng, Tail};
 use pdatastructs::countminsketch::CountMinSketch;
@@ -59,9 +60,18 @@ pub fn hll(max_len: usize) -> (u64, Vec<Viol>) {
                 cases += 1;
                 let r = mccore::panics::catch(|| {
                     let mut owned: HyperLogLog<u64> = HyperLogLog::new(b);
+                    if split % 2 == 1 {
+                        // odd split points: the sketch first saw other items and was cleared
+                        owned.extend(vec![42u64, 43, 44]);
+                        owned.clear();
+                    }
                     owned.extend(seq[..split].to_vec());
                     owned.extend(seq[split..].to_vec());
                     let mut byref: HyperLogLog<u64> = HyperLogLog::new(b);
+                    if split % 2 == 0 {
+                        byref.add(&42);
+                        byref.clear();
+                    }
                     byref.extend(seq[..split].iter());
                     byref.extend(seq[split..].iter());
                     (owned.registers().to_vec(), owned.count(), byref.registers().to_vec(), byref.count())
@@ -104,6 +114,10 @@ pub fn cms(max_len: usize) -> (u64, Vec<Viol>) {
                 cases += 1;
                 let r = mccore::panics::catch(|| {
                     let mut s: CountMinSketch<u64> = CountMinSketch::with_params(w, d);
+                    if split % 2 == 1 {
+                        s.extend(vec![42u64, 7, 7]);
+                        s.clear();
+                    }
                     s.extend(seq[..split].to_vec());
                     s.extend(seq[split..].to_vec());
                     (ALPHA.iter().map(|a| s.query_point(a)).collect::<Vec<usize>>(), s.is_empty())
@@ -145,6 +159,10 @@ pub fn bloom(max_len: usize) -> (u64, Vec<Viol>) {
                 cases += 1;
                 let r = mccore::panics::catch(|| {
                     let mut s: BloomFilter<u64> = BloomFilter::with_params(m, k);
+                    if split % 2 == 1 {
+                        s.extend(vec![42u64, 7]);
+                        s.clear();
+                    }
                     s.extend(seq[..split].to_vec());
                     s.extend(seq[split..].to_vec());
                     let missing: Vec<u64> = seq.iter().copied().filter(|x| !s.query(x)).collect();
@@ -194,11 +212,24 @@ pub fn reservoir(prop: &str, ks: &[usize]) -> (u64, Vec<Viol>) {
                     (want.reservoir().clone(), want.i(), want.is_empty())
                 });
                 chooser::end();
-                for split in 0..=seq.len() {
+                for split in 0..=(2 * seq.len() + 1) {
                     cases += 1;
+                    // second half of the split range: the same on a sampler that first saw 4k+3 other items and was cleared
+                    let dirty = split > seq.len();
+                    let split = if dirty { split - seq.len() - 1 } else { split };
+                    let mut s = ReservoirSampling::new(k, ChoiceRng);
+                    if dirty {
+                        chooser::begin_with(&[], tail, 0);
+                        let _ = mccore::panics::catch(|| {
+                            for x in 0..(4 * k + 3) as u64 {
+                                s.add(1000 + x);
+                            }
+                            s.clear();
+                        });
+                        chooser::end();
+                    }
                     chooser::begin_with(&[], tail, 0);
                     let r = mccore::panics::catch(|| {
-                        let mut s = ReservoirSampling::new(k, ChoiceRng);
                         s.extend(seq[..split].to_vec());
                         s.extend(seq[split..].to_vec());
                         (s.reservoir().clone(), s.i(), s.is_empty())
@@ -213,7 +244,7 @@ pub fn reservoir(prop: &str, ks: &[usize]) -> (u64, Vec<Viol>) {
                     };
                     if let Some(m) = bad {
                         if out.len() < 3 {
-                            out.push(viol(prop, &format!("ReservoirSampling(k={}, rng answers {:?})", k, tail), &seq, split, m));
+                            out.push(viol(prop, &format!("ReservoirSampling(k={}, rng answers {:?}{})", k, tail, if dirty { ", after 4k+3 adds and clear()" } else { "" }), &seq, split, m));
                         }
                     }
                 }
@@ -239,6 +270,10 @@ pub fn cmsheap(max_len: usize) -> (u64, Vec<Viol>) {
                 cases += 1;
                 let r = mccore::panics::catch(|| {
                     let mut s: CMSHeap<u64> = CMSHeap::new(k, CountMinSketch::with_params(w, d));
+                    if split % 2 == 1 {
+                        s.extend(vec![42u64, 7, 7, 1]);
+                        s.clear();
+                    }
                     s.extend(seq[..split].to_vec());
                     s.extend(seq[split..].to_vec());
                     let mut v: Vec<u64> = s.iter().collect();
